@@ -14,7 +14,7 @@ Lemma cache_fresh_inventory : forall ops,
 Proof.
   intros ops H. apply cache_fresh_all.
   apply forallb_forall. intros o Ho. rewrite Forall_forall in H. specialize (H o Ho).
-  destruct o as [m|ks|N og groups bits sq atol]; cbn; try reflexivity.
+  destruct o as [m|ks|N qs og groups bits sq atol]; cbn; try reflexivity.
   apply in_map_iff in H. destruct H as [[name m'] [E Hin]]. cbn in E. subst m'.
   pose proof inventory_covered as C. rewrite forallb_forall in C. exact (C _ Hin).
 Qed.
